@@ -36,7 +36,7 @@ impl Property for C07 {
         let ty = sh.ty();
         let name = ty.short();
         let mut t = Tape::new(tape);
-        let msgs = gen_msgs(ty, &mut t, 6, 400);
+        let mut msgs = gen_msgs_ext(ty, &mut t, 6, 400, true);
         let max_msg_len = match t.below(6) {
             0 => msgs.largest,
             1 => msgs.largest + 1,
@@ -48,24 +48,40 @@ impl Property for C07 {
         let total = msgs.total();
         let cuts = msgs.interesting_cuts(ty);
         let wchunks = gen_chunks(total, &cuts, &mut t);
-        let rchunks = gen_chunks(total, &cuts, &mut t);
         let routes = t.route(6);
         st.shapes_seen.insert(name.clone());
-        let budget = 4 * total + wchunks.len() + rchunks.len() + 64;
+        let budget = 8 * total + 4 * wchunks.len() + 256;
 
         // sender
         let mut sink = ScriptSink::new(wouts(&wchunks), WOut::Accept(usize::MAX), budget);
         st.eval(1);
-        let sends = match lib(|| sh.io_send_blocking(&msgs.values, &routes, max_msg_len, &mut sink, false)) {
+        msgs.install_post_ops();
+        let sends = lib(|| sh.io_send_blocking(&msgs.initial, &routes, max_msg_len, &mut sink, false));
+        Msgs::clear_post_ops();
+        let sends = match sends {
             Ok(s) => s,
             Err(p) => crate::vfail!("panic", "{}: blocking sender panicked: {}", name, p),
         };
         if let Err((k, m)) = all_sent(&name, &sends.results, msgs.values.len()) {
             crate::vfail!(k, "{} [max_msg_len {}, write chunks {:?}]", m, max_msg_len, wchunks);
         }
-        if let Err(m) = msgs.check_stream(&sink.data, msgs.values.len()) {
-            crate::vfail!("stream", "{}: {} [max_msg_len {}, write chunks {:?}]", name, m, max_msg_len, wchunks);
+        match msgs.frame_stream(ty, &sink.data, msgs.values.len()) {
+            Ok(starts) => msgs.starts = starts,
+            Err(m) => crate::vfail!(
+                "stream",
+                "{}: {} [emplaced {:?}, then {:?} on the send guard, max_msg_len {}, write chunks {:?}]",
+                name,
+                m,
+                msgs.initial.iter().map(|v| v.show()).collect::<Vec<_>>(),
+                msgs.post_ops,
+                max_msg_len,
+                wchunks
+            ),
         }
+        // read chunking over the real stream
+        let total = msgs.total();
+        let cuts = msgs.interesting_cuts(ty);
+        let rchunks = gen_chunks(total, &cuts, &mut t);
         // receiver over exactly these bytes
         let mut source = ScriptSource::new(sink.data.clone(), routs(&rchunks), ROut::Deliver(usize::MAX), budget);
         st.eval(1);
@@ -76,9 +92,10 @@ impl Property for C07 {
         if let Err((k, m)) = check_received(&name, &msgs.values, &recvs.events, true) {
             crate::vfail!(
                 k,
-                "{} [messages {:?}, sizes {:?}, max_msg_len {}, read chunks {:?}]",
+                "{} [messages {:?} (post-ops {:?}), sizes {:?}, max_msg_len {}, read chunks {:?}]",
                 m,
                 msgs.values.iter().map(|v| v.show()).collect::<Vec<_>>(),
+                msgs.post_ops,
                 msgs.starts,
                 max_msg_len,
                 rchunks
@@ -93,6 +110,9 @@ impl Property for C07 {
         });
         if in_padding {
             st.label("read boundary inside trailing padding");
+        }
+        if msgs.post_ops.iter().any(|o| !o.is_empty()) {
+            st.label("message modified through the send guard before send");
         }
         if msgs.values.len() >= 2 && inside && (msgs.has_padding || in_padding) {
             st.label("non-trivial");
